@@ -587,6 +587,11 @@ func (g *Gen) resolveType(tx *TypeX, pkg *packages.Package) (types.Type, string)
 				return nil, "(Array Int (_ BitVec 520))"
 			}
 			return nil, "(Array Int Int)"
+		case "ByteMem":
+			// the value of mem(s) for a []byte / string s: the backing array as a map from index to byte, in the
+			// sorts of the current arithmetic mode (so a spec over message bytes is usable from int and bv callers)
+			_, so := g.memComp(types.Typ[types.Uint8])
+			return nil, so
 		case "bool", "Bool":
 			return types.Typ[types.Bool], "Bool"
 		case "string":
